@@ -22,7 +22,6 @@ GATES = {
     "for_target_reuse": "a `for` target that is assigned elsewhere in the same scope reads a stale register",
     "name_alias": "`y = x` aliases y to x's register although x is overwritten later",
     "jump_table": "constant list with >= 6 entries and a dynamic index: select operands swapped inside each pair",
-    "for_continue": "`continue` in a for-range loop jumps to the test and skips the increment",
     "ref_id_register": "a register-held reference id captured by Stack(ref_id=v)/X(ref_id=v) is clobbered",
     "loop_bound_mutation": "range() bound held in a variable that the loop body modifies (Python evaluates range once)",
     "for_target_mutation": "assignment to the for target inside the body changes the iteration",
@@ -389,8 +388,6 @@ class Gen:
             return self.while_cmp(sc, ind, depth)
         if k < 0.92 and sc.loop_depth > 0:
             kws = ["break", "continue"]
-            if sc.in_for and not self.gate("for_continue"):
-                kws.remove("continue")
             if not direct and not self.gate("break_nested"):
                 kws.remove("break")
             if sc.in_forlist and not self.gate("break_in_forlist"):
